@@ -116,6 +116,8 @@ def fair(chooser, k=3):
             if c2:
                 return chooser(s, c2, cur)
         return chooser(s, cand, cur)
+    w.line_p = getattr(chooser, "line_p", 0.0)
+    w.line_seed = getattr(chooser, "line_seed", 0)
     return w
 
 
